@@ -172,4 +172,22 @@ CHECKS = {
                    "(the code 'forgets' the last trigger by setting it to frame 0).",
         assumptions=["no group triggers and no edge-multi in this check (C08/C09)", "contiguous frame numbering"],
     ),
+    "C08": dict(
+        pkg=".", hdir="root", test="TestVerif_C08", wal=True,
+        quick=dict(shards=16, checks=3000, timeout=600),
+        thorough=dict(shards=16, checks=60000, timeout=3000),
+        technique="property-based testing (rapid): metamorphic/differential relation one-block vs partitioned run + validity predicates",
+        rule="rapid-generated one-channel streams with edges placed at indexes npre-2..npre+2 (first searchable sample), at block boundaries "
+             "-+(nsamp-npre), in pairs closer together than a record, and boundary-biased pulses; all three edge-multi record modes, "
+             "thresholds of either sign (1..20000), monotonicity counts 0..nsamp-npre, zero-threshold refinement on/off, record lengths "
+             "satisfying the validity rule; run A = whole stream as one block, run B = a generated partition (as in C01). non-trivial = "
+             ">= 2 records AND (an edge within nsamp of a block boundary of run B OR an edge at index <= npre+1); distinct = FNV-64 of the case",
+        level_text="The record lists (frame, pre-trigger length, length, samples) of the one-block and the partitioned run of the same stream "
+                   "through the real append/trigger/trim cycle must be identical; in each run trigger frames strictly increase, fixed-length "
+                   "modes give (npre, nsamp), variable-length records neither overlap nor extend past the next edge, every record is an "
+                   "exact excerpt; any panic is a violation.",
+        level_note="Not claimed (no listed property demands edge-multi completeness): with a first frame in [2^31, 2^32) a (re)configured "
+                   "edge-multi channel never triggers; both runs agree (empty), which is observed, not judged.",
+        assumptions=["edge-multi settings respect the validity rule (zero-threshold needs npre >= 4 and nsamp-npre >= 4; nmonotone <= nsamp-npre)"],
+    ),
 }
